@@ -1,6 +1,7 @@
 """registry.py — property id -> check function(prop, tier, seed, replay) -> exit code"""
-import props_map
+import props_map, props_ext
 
 CHECKS = {}
 for p in ("C01", "C02", "C05", "C07", "C13", "C14"):
     CHECKS[p] = lambda prop, tier, seed, replay: props_map.run_property(prop, tier, seed, replay=replay)
+CHECKS["C06"] = lambda prop, tier, seed, replay: props_ext.run_property(prop, tier, seed, replay=replay)
